@@ -105,7 +105,7 @@ def _parse_string(s):
     test = float(s) * factor
 
     s_float, exp, s_exp = s.partition("e")
-    s_count, sep, s_frac = s_float.rpartition(".")
+    s_count, sep, s_frac = s_float.partition(".")
     if exp:
         exponent = int(s_exp)
         if exponent < 0:
@@ -516,6 +516,9 @@ class Phase(Angle):
         if string.dtype.kind not in "SU":
             raise ValueError("require string input.")
         count, frac = _parse_strings(string)
+        if not (np.any(count.imag) or np.any(frac.imag)):
+            # No imaginary strings: a zero part must not be taken as imaginary.
+            count, frac = count.real, frac.real
         return cls(count, frac)
 
     @property
